@@ -615,7 +615,9 @@ def main_single():
         cfg = parse_config_dict(copy.deepcopy(raw))
         cfg_before = copy.deepcopy(cfg)
         tower = cfg.towers[o["tower"] - 1]
-        supplied = rng.uniform(-1, 2, size=(raw["domain"]["ny"], raw["domain"]["nx"])) if o["src"] == "supplied" else None
+        # a supplied flux map defines its own raster: every third one has other cell counts than the configuration's nx, ny
+        sup_shape = (raw["domain"]["ny"] + 2, raw["domain"]["nx"] + 4) if nsup % 3 == 2 else (raw["domain"]["ny"], raw["domain"]["nx"])
+        supplied = rng.uniform(-1, 2, size=sup_shape) if o["src"] == "supplied" else None
         supplied_before = None if supplied is None else supplied.copy()
         # YAML and dictionary parse to the same configuration
         yp = os.path.join(d, "c.yaml")
